@@ -82,7 +82,10 @@ func c19Race(k, rounds int) string {
 			go func() {
 				defer wg.Done()
 				atomic.AddInt32(&ready, 1)
-				for atomic.LoadInt32(&goFlag) == 0 {
+				for spins := 0; atomic.LoadInt32(&goFlag) == 0; spins++ {
+					if spins&1023 == 1023 {
+						runtime.Gosched() // stay live on a loaded machine
+					}
 				}
 				c.Inc()
 			}()
